@@ -9,6 +9,13 @@ ENGINES = [
 NOTES = "All checks are bounded-exhaustive explorations of the real implementation (no sampling); see DESIGN.md."
 NOT_APPLICABLE = {}
 CHECKS = {
+    "C20": {
+        "engine": "progspace (E1)",
+        "category": "exploration",
+        "technique": "bounded-exhaustive exploration of the C01 program space in referents mode; exhaustive fault-point enumeration (every line event inside the trickery analysis); exhaustive operation sequences of the mode switch from two threads",
+        "text": "A: every program x path x suspension with trickery disabled must report an ordered over-approximation of the truly active managers (right obj/is_async, is_exiting entry iff an exit is in progress, extras only the manager being entered/exited). B: a fault raised at every line event inside the trickery analysis (and its self-test) must yield an InspectionWarning, no exception, and the same over-approximation. C: every sequence (length <= 4) of set_trickery_enabled / extract calls from two threads must observe the last mode set.",
+        "note": "Fault granularity: source lines of stackscope's own modules; a fault that lands in a generator finaliser is discarded by the interpreter and counted as not delivered. Bounds: A S<=4 (quick core / thorough full + core S<=5), C length 3/4.",
+    },
     "C03": {
         "engine": "chainspace (E2)",
         "category": "exploration",
